@@ -478,6 +478,9 @@ func checkC19(c *c19Case, r *vstat.Run) outcome {
 		if lr, _ := c.Grammar.LeftRecursive(); lr {
 			expect, reason = tagMalformed, "left-recursive system"
 		}
+		if len(c.Grammar.ExtraElide) > 0 {
+			expect, reason = tagMalformed, "an Elide() option names a token type the lexer does not define"
+		}
 		if r != nil && c.Origin == "recsys" {
 			r.Journal(c, "Build of a generated recursive system")
 			defer r.JournalDone()
@@ -951,7 +954,7 @@ func propC19(t *rapid.T, r *vstat.Run) {
 			c.Grammar, _ = gram.GenRecSystem(t)
 		case k <= 14:
 			c.Origin = "valid"
-			c.Grammar = gram.GenGrammar(t, gram.GenOpts{MaxProds: 4, MaxDepth: 3, TrapPercent: 10, PosStyles: true, MixedUnion: true, Profiles: true, DeepEmbeds: true, Parseables: true})
+			c.Grammar = gram.GenGrammar(t, gram.GenOpts{MaxProds: 4, MaxDepth: 3, TrapPercent: 10, PosStyles: true, MixedUnion: true, Profiles: true, DeepEmbeds: true, Parseables: true, BadElide: true})
 		case k <= 16:
 			c.Origin = "static"
 			c.Static = rapid.SampledFrom(c19Statics).Draw(t, "static")
